@@ -4024,12 +4024,29 @@ class IniFileStore(Store):
         Returns:
             The quoted value suitable for storage.
         """
+        if any(line.splitlines() not in ([], [line]) for line in value.split("\n")):
+            # ConfigObj splits the file with str.splitlines(): a line boundary
+            # character other than "\n" cannot be stored, quoted or not.
+            raise configobj.ConfigObjError(
+                f'Value "{value}" cannot be safely quoted.'
+            )
+        if "\n" in value:
+            # ConfigObj adds the triple quotes a multi-line value needs when it
+            # writes the file and removes them when it parses it, quoting
+            # here as well would make them part of the value.
+            self._config_obj._get_triple_quote(value)  # may refuse the value
+            return value
         try:
             # configobj conflates automagical list values and quoting
             self._config_obj.list_values = True
-            return self._config_obj._quote(value)
+            quoted = self._config_obj._quote(value)
         finally:
             self._config_obj.list_values = False
+        if quoted == value and value != value.strip():
+            # ConfigObj only knows about ascii whitespace but strips all of it
+            # when parsing.
+            quoted = self._config_obj._get_single_quote(value) % (value,)
+        return quoted
 
     def unquote(self, value):
         """Unquote a configuration value from storage.
@@ -4040,9 +4057,10 @@ class IniFileStore(Store):
         Returns:
             The unquoted value.
         """
-        if value and isinstance(value, str):
+        if value and isinstance(value, str) and "\n" not in value:
             # _unquote doesn't handle None nor empty strings nor anything that
-            # is not a string, really.
+            # is not a string, really. Multi-line values have already been
+            # unquoted by the parser.
             value = self._config_obj._unquote(value)
         return value
 
@@ -4360,7 +4378,11 @@ class LocationSection(Section):
             policy_name = self.get(name + ":policy", None)
             policy = _policy_value.get(policy_name, POLICY_NONE)
             if policy == POLICY_APPENDPATH:
-                value = urlutils.join(value, self.extra_path)
+                if self.extra_path:
+                    value = urlutils.join(value, self.extra_path)
+            elif policy == POLICY_NORECURSE and self.extra_path:
+                # norecurse options only apply to the exact location
+                return default
             # expand section local options right now (since POLICY_APPENDPATH
             # will never add options references, it's ok to expand after it).
             chunks = []
@@ -4508,14 +4530,15 @@ class LocationMatcher(SectionMatcher):
         )
         # Sections mentioning 'ignore_parents' restrict the selection
         for _, section in sections:
+            yield self.store, section
             # FIXME: We really want to use as_bool below -- vila 2011-04-07
             ignore = section.get("ignore_parents", None)
             if ignore is not None:
                 ignore = ui.bool_from_string(ignore)
             if ignore:
+                # The parents of this section are ignored, not the section
+                # itself.
                 break
-            # Finally, we have a valid section
-            yield self.store, section
 
 
 # FIXME: _shared_stores should be an attribute of a library state once a
